@@ -92,7 +92,9 @@ def main():
                 "confirmed_by": "tools/seed_confirm.sh in the scratch worktree: the 209 repository tests pass with the change; the demonstration fails with it and passes without it",
                 "how_to_run_checks_against_it": "git -C /repo apply /verif/seeded/%s/patch.diff && (cd /verif && ./check %s --tier quick); git -C /repo checkout -- ." % (seed, pid),
                 "first_round": {"alarmed": sorted(fr.keys()), "own_property_check_alarmed": own_first, "detail": fr},
-                "now": None if fi is None else {"alarmed": sorted(fi.keys()), "own_property_check_alarmed": pid in fi, "detail": fi,
+                "now": None if fi is None else {"alarmed": sorted(k for k, v in fi.items() if v["exit"] == 1),
+                                                  "machinery_exits": sorted(k for k, v in fi.items() if v["exit"] != 1),
+                                                  "own_property_check_alarmed": pid in fi and fi[pid]["exit"] == 1, "detail": fi,
                                                   "repo_head": repo_head, "verif_head": verif_head},
                 "patch_rebased": os.path.exists(rebased),
             })
